@@ -182,16 +182,29 @@ loop:
 			}
 		}
 	}
-	out = append(out, sweep(fs, c)...)
-	for t := range slots {
-		for _, h := range slots[t] {
-			if h != nil {
-				func() {
-					defer func() { recover() }()
-					h.Close()
-				}()
+	// the sweep takes mu and the file mutexes: a lock that a recovered panic left held blocks it
+	swept := make(chan []Finding, 1)
+	go func() {
+		f := sweep(fs, c)
+		for t := range slots {
+			for _, h := range slots[t] {
+				if h != nil {
+					func() {
+						defer func() { recover() }()
+						h.Close()
+					}()
+				}
 			}
 		}
+		swept <- f
+	}()
+	select {
+	case f := <-swept:
+		out = append(out, f...)
+	case <-time.After(3 * time.Second):
+		out = append(out, Finding{Sig: "deadlock:lock-left-held-after-all-calls-returned",
+			Detail: "every goroutine has returned but the consistency sweep (VerifDump: mu.RLock) blocks: a lock was never released"})
+		return out, true
 	}
 	return out, false
 }
